@@ -2,6 +2,7 @@
   Spil.Spec.Unfold — declarative reading of the search-expression syntax (C07, C10).
 -/
 import Spil.Model.Unfold
+import Spil.Spec.Sid
 
 namespace Spec
 
@@ -21,5 +22,21 @@ def orProduct : List Str → List Str
 inductive Choice : List Str → List Str → Prop
   | nil : Choice [] []
   | cons {p ps a as} : a ∈ altsOf p → Choice ps as → Choice (p :: ps) (a :: as)
+
+end Spec
+
+namespace Spec
+
+/-- "/*" repeated `k` times -/
+def stars (k : Nat) : Str := (List.replicate k ['/', '*']).flatten
+
+/-- the search string with its "/**" replaced by `k` levels of "/*" -/
+def fill (s : Str) (k : Nat) : Str := Str.replace s ['/', '*', '*'] (stars k)
+
+/-- the part of the search before "/**" -/
+def rootOf (s : Str) : Str := ((Str.splitStr s ['/', '*', '*']).head?).getD []
+
+/-- the typed search Sid a template denotes for a string it accepts -/
+def typedAs (label : Str) (t : Template) (s : Str) : Sid := ⟨s, label, fieldsOf t s⟩
 
 end Spec
